@@ -4,6 +4,7 @@
 #include <cstddef>
 #include <cstring>
 #include <algorithm>
+#include <functional>
 #include <initializer_list>
 
 #include "RandomAccessIndexIterator.h"
@@ -129,6 +130,13 @@ public:
     }
 
     void resize(size_t size, const T &value) {
+        // value may refer to an element of this array, which destroy/realloc below would invalidate
+        if (std::less_equal<const T*>()(m_array, &value) && std::less<const T*>()(&value, m_array + m_size)) {
+            T copy(value);
+            resize(size, copy);
+            return;
+        }
+
         destroy(size, m_size);
 
         m_array = static_cast<T*>(realloc(m_array, size * sizeof(T)));
